@@ -287,7 +287,7 @@ def grid_of(prog: dict[str, Any], r: random.Random) -> dict[str, list[Any]]:
 # ------------------------------------------------------------------------------------------------
 
 def gen_sampler(r: random.Random, kind: str, prog: dict[str, Any]) -> dict[str, Any]:
-    seed = r.randrange(1, 10_000)
+    seed = 0 if r.random() < 0.15 else r.randrange(1, 10_000)   # 0 is a legal seed (and falsy)
     if kind == "random":
         return {"k": "random", "seed": seed}
     if kind.startswith("tpe"):
